@@ -19,6 +19,15 @@ D = decimal.Decimal
 PI = D("3.14159265358979323846264338327950288419716939937510582097494459230781640628620899")
 EPS = Fraction(1, 2 ** 53)
 
+MODELLED = ["evo/core/metrics.py:PE.change_unit", "evo/core/metrics.py:PE.get_statistic",
+            "evo/core/metrics.py:PE.get_all_statistics", "evo/core/metrics.py:PE.get_result",
+            "evo/core/metrics.py:StatisticsType", "evo/core/metrics.py:PoseRelation",
+            "evo/core/metrics.py:APE.__init__", "evo/core/metrics.py:APE.__str__",
+            "evo/core/metrics.py:RPE.__init__", "evo/core/metrics.py:RPE.__str__", "evo/core/metrics.py:RPE.process_data",
+            "evo/core/units.py:Unit", "evo/main_ape.py:ape", "evo/main_rpe.py:rpe",
+            "evo/core/trajectory.py:PosePath3D.reduce_to_ids", "evo/core/trajectory.py:PoseTrajectory3D.reduce_to_ids",
+            "evo/core/geometry.py:accumulated_distances", "evo/core/result.py:Result.add_np_array"]
+
 RULE = ("case kinds: stats (error arrays 1..2e4 values through the model, up to 1e6 through the oracle only in the thorough "
         "tier; magnitudes 1e-12..1e6, constant, single value, integer grid) compared with the rational statistics "
         "(rmse^2, std^2 as squares; min/max/odd median bit-exact); units (all 100 ordered unit pairs every run on fresh "
@@ -878,6 +887,7 @@ def shrink(case):
 
 def check(ctx):
     lean = core.lean_side(ctx.prop, ctx.tier, pre_build=units_tr.generate)
+    core.drift(ctx, MODELLED)
     cases = list(gen_cases(ctx))
     evaluate(ctx, cases)
     core.shrink_all(ctx, shrink, evaluate)
